@@ -49,6 +49,11 @@ C15T = [("Mc.Props.C15", "Mc.C15.C15_selection_type_invalid"), ("Mc.Props.C15", 
 C16T = [("Mc.Props.C16", "Mc.C16.C16_string_map_pointwise"), ("Mc.Props.C16", "Mc.C16.C16_string_map_uniq"), ("Mc.Props.C16", "Mc.C16.C16_changed_flag"), ("Mc.Props.C16", "Mc.C16.C16_flag_false_of_satisfied"), ("Mc.Props.C16", "Mc.C16.C16_selector_conjunction"), ("Mc.Props.C16", "Mc.C16.C16_rule_for"), ("Mc.Props.C16", "Mc.C16.C16_undeclared_never_matches"), ("Mc.Props.C16", "Mc.C16.C16_attachment_filter_sound"), ("Mc.Props.C16", "Mc.C16.C16_attachment_filter_complete"), ("Mc.Props.C16", "Mc.C16.C16_attachment_filter"), ("Mc.Props.C16", "Mc.C16.C16_no_change_no_request"), ("Mc.Props.C16", "Mc.C16.C16_bad_status_no_request")]
 C10ST = [("Mc.Props.C10Sync", "Mc.C10.C10_add_first_partial"), ("Mc.Props.C10Sync", "Mc.C10.C10_add_skipped_when_present"), ("Mc.Props.C10Sync", "Mc.C10.C10_failed_finalizer_phase"), ("Mc.Props.C10Sync", "Mc.C10.C10_failed_add_stops"), ("Mc.Props.C10Sync", "Mc.C10.C10_add_phase_starts_with_get"), ("Mc.Props.C10Sync", "Mc.C10.C10_dying_parent_inert_claims"), ("Mc.Props.C10Sync", "Mc.C10.C10_dying_parent_only_parent"), ("Mc.Props.C10Sync", "Mc.C10.C10_dying_parent_guard"), ("Mc.Props.C10Sync", "Mc.C10.C10_dying_parent_only_parent_decorator"), ("Mc.Props.C10Sync", "Mc.C10.C10_dying_parent_guard_decorator")]
 
+C02T = [("Mc.Props.C02", "Mc.C02.C02_manage_requests_strong"), ("Mc.Props.C02", "Mc.C02.C02_manage_requests"), ("Mc.Props.C02", "Mc.C02.C02_manage_requests_ssa"), ("Mc.Props.C02", "Mc.C02.C02_delete_guard"), ("Mc.Props.C02", "Mc.C02.C02_revision_requests"), ("Mc.Props.C02", "Mc.C02.C02_revision_delete_guard"), ("Mc.Props.C02", "Mc.C02.C02_create_owner"), ("Mc.Props.C02", "Mc.C02.C02_create_controller"), ("Mc.Props.C02", "Mc.C02.C02_create_owner_needs_meta"), ("Mc.Props.C02", "Mc.C02.C02_apply_owner"), ("Mc.Props.C02", "Mc.C02.C02_apply_controller"), ("Mc.Props.C02", "Mc.C02.C02_apply_controller_partial_counterexample"), ("Mc.Props.C02", "Mc.C02.sys_has_uid"), ("Mc.Props.C02", "Mc.C02.sys_has_resourceVersion"), ("Mc.Props.C02", "Mc.C02.C02_update_keeps_identity"), ("Mc.Props.C02", "Mc.C02.C02_update_keeps_identity_generated"), ("Mc.Props.C02", "Mc.C02.applyUpdate_status_kept"), ("Mc.Props.C02", "Mc.C02.C02_claim_requests"), ("Mc.Props.C02", "Mc.C02.C02_claim_requests_targets"), ("Mc.Props.C02", "Mc.C02.C02_claim_no_foreign_write")]
+C12T = [("Mc.Props.C12", "Mc.C12.C12_child_independent"), ("Mc.Props.C12", "Mc.C12.C12_delete_independent"), ("Mc.Props.C12", "Mc.C12.C12_manage_collects"), ("Mc.Props.C12", "Mc.C12.C12_swallowed_only_benign"), ("Mc.Props.C12", "Mc.C12.C12_delete_swallows_notfound"), ("Mc.Props.C12", "Mc.C12.C12_updateGroup_errors"), ("Mc.Props.C12", "Mc.C12.C12_deleteGroup_errors"), ("Mc.Props.C12", "Mc.C12.C12_manage_errors"), ("Mc.Props.C12", "Mc.C12.C12_error_means_requeue"), ("Mc.Props.C12", "Mc.C12.C12_error_keeps_after"), ("Mc.Props.C12", "Mc.C12.C12_tooMany_requeue_after"), ("Mc.Props.C12", "Mc.C12.C12_ok_outcome"), ("Mc.Props.C12", "Mc.C12.C12_panic_iff"), ("Mc.Props.C12", "Mc.C12.C12_composite_429"), ("Mc.Props.C12", "Mc.C12.C12_decorator_429")]
+C13T = [("Mc.Props.C13", "Mc.C13.C13_total"), ("Mc.Props.C13", "Mc.C13.C13_total_decorator"), ("Mc.Props.C13", "Mc.C13.C12_decorator_never_tooMany"), ("Mc.Props.C13", "Mc.C13.C13_reject_fails"), ("Mc.Props.C13", "Mc.C13.C13_reject_stops"), ("Mc.Props.C13", "Mc.C13.C13_reject_no_write"), ("Mc.Props.C13", "Mc.C13.C13_reject_fails_sync"), ("Mc.Props.C13", "Mc.C13.C13_reject_outcome"), ("Mc.Props.C13", "Mc.C13.C13_reject_no_write_decorator")]
+C06LT = [("Mc.Props.C06Lift", "Mc.C06.C06_distinct_targets"), ("Mc.Props.C06Lift", "Mc.C06.C06_distinct_targets_cluster"), ("Mc.Props.C06Lift", "Mc.C06.C06_lift"), ("Mc.Props.C06Lift", "Mc.C06.C06_lift_create"), ("Mc.Props.C06Lift", "Mc.C06.C06_lift_ondelete"), ("Mc.Props.C06Lift", "Mc.C06.C06_lift_exact"), ("Mc.Props.C06", "Mc.C06.C06_delete_inv"), ("Mc.Props.C06", "Mc.C06.C06_update_inv")]
+
 PROPS = {
     "C19": {
         "theorems": C19T,
@@ -61,11 +66,11 @@ PROPS = {
         "trusted_base": TB_COMMON + ["modelled not verified: net/http, sigs.k8s.io/json strict decoding (classified by the harness's four body classes), zcache (present/expired)"],
         "assumptions": ["Retry-After dates are compared on whole seconds; byte-level decoding is library code compared through four representative bodies"],
     },
-    "C02": sync_prop(C04T[:1] + C04T[3:6] + C06T[-1:], ["create-child", "update-child", "delete-child", "apply-child", "create-revision", "update-revision", "delete-revision"],
+    "C02": sync_prop(C02T + C04T[:1] + C04T[3:6] + C06T[-1:], ["create-child", "update-child", "delete-child", "apply-child", "create-revision", "update-revision", "delete-revision"],
                      "non-trivial = some child or ControllerRevision write was accepted", ["claim", "children", "revisions"]),
     "C04": sync_prop(C04T, ["update-child", "update-revision", "failed-update"],
                      "non-trivial = an ownership edit or another child update was attempted", ["claim"]),
-    "C06": sync_prop(C06T, ["update-child", "delete-child", "create-child"],
+    "C06": sync_prop(C06T + C06LT, ["update-child", "delete-child", "create-child"],
                      "non-trivial = some child write was accepted", ["children"]),
     "C03": sync_prop(C03T, ["hook-sync", "hook-finalize"],
                      "non-trivial = a sync or finalize hook was called (its children map is compared with the owned set computed from the cache snapshot)", ["hook", "claim"]),
@@ -75,6 +80,10 @@ PROPS = {
                      "non-trivial = a parent status write was attempted", ["status", "outcome"]),
     "C16": sync_prop(C16T, ["update-parent", "updateStatus-parent"],
                      "non-trivial = the decorated object was written (decorator traces); composite traces are not judged", ["parent", "status", "hook"]),
+    "C12": sync_prop(C12T, ["failed-create", "failed-update", "failed-delete", "failed-updateStatus", "outcome-error"],
+                     "non-trivial = some request failed or the sync reported an error", ["outcome", "children", "status", "claim", "revisions", "finalizer", "parent"]),
+    "C13": sync_prop(C13T, ["outcome-error", "hook-sync", "hook-finalize"],
+                     "non-trivial = a hook was called", ["outcome", "hook", "children"]),
     "C10": sync_prop(C10T + C10ST, ["update-parent", "hook-finalize", "create-child"],
                      "non-trivial = the parent was edited, the finalize hook called, or a child created", ["finalizer", "parent", "hook", "children"]),
 
